@@ -6,6 +6,7 @@ import (
 	"io"
 	"regexp"
 	"sync"
+	"sync/atomic"
 	"time"
 
 	"github.com/scrapli/scrapligo/logging"
@@ -110,7 +111,7 @@ type Channel struct {
 
 	Q              *util.Queue
 	Errs           chan error
-	readLoopExited bool
+	readLoopExited atomic.Bool
 
 	ChannelLog io.Writer
 }
@@ -187,7 +188,7 @@ func (c *Channel) Close() error {
 
 	ch := make(chan struct{})
 
-	if !c.readLoopExited {
+	if !c.readLoopExited.Load() {
 		go func() {
 			defer close(ch)
 
